@@ -736,6 +736,9 @@ func runStream(multi bool) (res obs.Result) {
 	return res
 }
 
+// after a few stuck executions the remaining cases are skipped (each costs its time-out)
+var stuckRuns int
+
 func run(ci any) (res obs.Result) {
 	c := ci.(Case)
 	switch c.Kind {
@@ -745,7 +748,13 @@ func run(ci any) (res obs.Result) {
 		return runStream(true)
 	}
 	c = scripted(c)
+	if stuckRuns >= 3 {
+		return obs.Result{Kind: "skipped-after-stuck", Sig: "skipped"}
+	}
 	evs, rn, stuck := runProgram(c)
+	if len(stuck) > 0 {
+		stuckRuns++
+	}
 	res.Kind = c.Kind
 	res.Oracle, res.Class = rn.oracle(stuck)
 	res.Site = "pool.go:Acquire/Store"
